@@ -419,13 +419,17 @@ theorem good_makeBackupFor {k} (o p) : Good k (makeBackupFor o p) := by
   · rfl
 macro_rules | `(tactic| dm_prim) => `(tactic| with_reducible exact good_makeBackupFor _ _)
 
-theorem good_writePatchedResult {k} (a b c d) : Good k (writePatchedResult a b c d) := by
-  unfold writePatchedResult; dm_good
-macro_rules | `(tactic| dm_prim) => `(tactic| with_reducible exact good_writePatchedResult _ _ _ _)
+theorem good_makeWritable {k} (a b) : Good k (makeWritable a b) := by
+  unfold makeWritable; dm_good
+macro_rules | `(tactic| dm_prim) => `(tactic| with_reducible exact good_makeWritable _ _)
 
-theorem good_finalizeDeferred {k} : Good k finalizeDeferred := by
+theorem good_writePatchedResult {k} (o a b c sb d) : Good k (writePatchedResult o a b c sb d) := by
+  unfold writePatchedResult; dm_good
+macro_rules | `(tactic| dm_prim) => `(tactic| with_reducible exact good_writePatchedResult _ _ _ _ _ _)
+
+theorem good_finalizeDeferred {k} (o) : Good k (finalizeDeferred o) := by
   unfold finalizeDeferred; dm_good
-macro_rules | `(tactic| dm_prim) => `(tactic| with_reducible exact good_finalizeDeferred)
+macro_rules | `(tactic| dm_prim) => `(tactic| with_reducible exact good_finalizeDeferred _)
 
 theorem good_parseBodyM {k} (a b) : Good k (parseBodyM a b) := by
   unfold parseBodyM; dm_good
